@@ -190,9 +190,11 @@ def run(ctx, rep):
             # every atom must be over W[79:72]
             ok = "W[79:72]" in k and "W[7" in k and k.startswith(("and[", "not(", "or["))
             import re
+            # the negation of a range test has the canonical form or[Gt(v,hi);Lt(v,lo)]
             ranges = set(re.findall(r"in\(\{b0\.\.7=W\[79:72\]\},(\d+)\.\.=(\d+)\)", k))
+            neg = set((str(int(lo, 16)), str(int(hi, 16))) for hi, lo in re.findall(r"or\[Gt\(\{b0\.\.7=W\[79:72\]\},(0x[0-9a-f]+)\);Lt\(\{b0\.\.7=W\[79:72\]\},(0x[0-9a-f]+)\)\]", k))
             want_r = {(str(a), str(b)) for a, b in dwo["il"] + dwo["ml"] + dwo["ol"]}
-            ok = ok and ranges == want_r and k.startswith("and[") and k.count("not(") == len(want_r)
+            ok = ok and k.startswith("and[") and ((ranges == want_r and k.count("not(") == len(want_r)) or (neg == want_r and not ranges and k.count("or[") == len(want_r)))
         rep.check(ok, "R11.2", "R11.2|check_any", "check_any: [E70] iff byte 9 is outside all documented ID ranges", ca,
                   "check_any condition is %s" % (ckey(cs[0]["cond"]) if cs else "absent"))
     else:
